@@ -465,6 +465,27 @@ func init() {
 		"internal/bytealg.Count": func(in *Interp, fr *frame, fn *ssa.Function, a []Value) Value {
 			return in.countByte(in.byteTerms(a[0]), term(a[1]))
 		},
+		// sync/atomic.Value stores an interface through unsafe word surgery: modelled as a side table per object
+		"(*sync/atomic.Value).Store": func(in *Interp, fr *frame, fn *ssa.Function, a []Value) Value {
+			in.atomicVals[specKey(in.ptr(a[0]))] = a[1]
+			return nil
+		},
+		"(*sync/atomic.Value).Load": func(in *Interp, fr *frame, fn *ssa.Function, a []Value) Value {
+			if v, ok := in.atomicVals[specKey(in.ptr(a[0]))]; ok {
+				return v
+			}
+			return IfaceV{}
+		},
+		"(*sync/atomic.Value).Swap": func(in *Interp, fr *frame, fn *ssa.Function, a []Value) Value {
+			k := specKey(in.ptr(a[0]))
+			old, ok := in.atomicVals[k]
+			in.atomicVals[k] = a[1]
+			if !ok {
+				return IfaceV{}
+			}
+			return old
+		},
+		"context.WithValue": func(in *Interp, fr *frame, fn *ssa.Function, a []Value) Value { return a[0] },
 		"(*os.File).Name": func(in *Interp, fr *frame, fn *ssa.Function, a []Value) Value {
 			return in.strConst("<file>") // only used in error messages
 		},
